@@ -414,6 +414,6 @@ pub fn run(a: &Args) -> Report {
         }
     }
     rep.sample(json!({"grid_deltas_seconds": deltas(), "type_bytes": "0..=255", "request_salt_echo": ["own", "each bit flipped", "another flow's", "zero"], "vmess_response_auth_byte": "0..=255", "replay": ["sequential with hooked clock advanced by 0/1/29/30/31/59/60", "concurrent on 2/4/8/16 threads (barrier)", "during an incomplete original", "thorough: 31 s real time, 102401 handshakes (cache capacity)"]}));
-    rep.extra.insert("exhaustive".into(), json!("the boundary grid (timestamps x type bytes x salt echoes x auth bytes) is enumerated completely for every SIP022 cipher, TCP and UDP, both directions, and both VMess securities"));
+    rep.extra.insert("exhaustive_detail".into(), json!("the boundary grid (timestamps x type bytes x salt echoes x auth bytes) is enumerated completely for every SIP022 cipher, TCP and UDP, both directions, and both VMess securities"));
     rep
 }
